@@ -203,6 +203,7 @@ pub const ROOT_SYMBOLS: &[&str] = &[
     "verif_block_of",
     "verif_run_import",
     "verif_call_export",
+    "verif_set_flags",
 ];
 
 /// Map rustc diagnostics (`--message-format=short`: `path:line:col: error…`) to
